@@ -400,7 +400,7 @@ func TestC02_Procs(t *testing.T) {
 	needWtf(t)
 	rec := stat.For("C02")
 	rapid.Check(t, func(t *rapid.T) {
-		cmds, cls := gen.DB(t, gen.CmdOpts{}, []int{0, 0, 10, 5, 1})
+		cmds, cls := gen.DB(t, gen.CmdOpts{Platforms: rapid.Bool().Draw(t, "platform-tags")}, []int{0, 0, 10, 5, 1})
 		dir := mkdirWork("c02p-")
 		defer os.RemoveAll(dir)
 		dbp := filepath.Join(dir, "db.yml")
@@ -419,24 +419,40 @@ func TestC02_Procs(t *testing.T) {
 		if q == "" {
 			q = "alpha"
 		}
-		opt := database.SearchOptions{Limit: rapid.SampledFrom([]int{1, 2, 3, 5}).Draw(t, "limit"), UseNLP: rapid.Bool().Draw(t, "nlp"), UseFuzzy: true, AllPlatforms: true}
+		opt := database.SearchOptions{Limit: rapid.SampledFrom([]int{1, 2, 3, 5}).Draw(t, "limit"), UseNLP: rapid.Bool().Draw(t, "nlp"), UseFuzzy: true, AllPlatforms: rapid.Bool().Draw(t, "all-platforms")}
 		oj, _ := json.Marshal(opt)
 		var outs []string
+		// three processes; the second and third often run in another environment (a WSL session's variables,
+		// another locale / terminal / time zone, unknown WTF_* settings) and another working directory: the
+		// answer is a function of database content, query and options
+		envs := [][]string{nil, nil, nil}
+		for i := 1; i < 3; i++ {
+			if rapid.Bool().Draw(t, "odd-environment") {
+				envs[i] = append([]string{"PATH=/usr/bin:/bin"}, gen.HostileEnv(t, fmt.Sprint(i))...)
+			}
+		}
 		for i := 0; i < 3; i++ {
-			r := proc.Run(proc.Cmd{Helper: "c02search", Args: []string{dbp, q, string(oj)}, FSize: -1})
+			wd := ""
+			if envs[i] != nil {
+				wd = "/"
+			}
+			r := proc.Run(proc.Cmd{Helper: "c02search", Args: []string{dbp, q, string(oj)}, FSize: -1, Env: envs[i], Dir: wd})
 			if r.ExitCode != 0 || r.TimedOut {
 				t.Fatalf("helper failed: %+v", r)
 			}
 			outs = append(outs, r.Stdout)
 		}
 		if outs[0] != outs[1] || outs[0] != outs[2] {
-			t.Fatalf("separate processes disagree for query %q options %s:\n%s---\n%s---\n%s\ndb=%v", q, oj, outs[0], outs[1], outs[2], gen.BriefDB(cmds, 12))
+			t.Fatalf("separate processes disagree for query %q options %s (environments %q):\n%s---\n%s---\n%s\ndb=%v", q, oj, envs, outs[0], outs[1], outs[2], gen.BriefDB(cmds, 12))
 		}
 		h, _ := proc.NewHome(dir)
-		args := []string{"--no-color", "-d", dbp, "--format", "json", "-v", "--all-platforms", "--limit", fmt.Sprint(opt.Limit), "--", q}
+		args := []string{"--no-color", "-d", dbp, "--format", "json", "-v", "--limit", fmt.Sprint(opt.Limit), "--", q}
+		if opt.AllPlatforms {
+			args = append([]string{"--all-platforms"}, args...)
+		}
 		var bouts []string
 		for i := 0; i < 3; i++ {
-			r := runWtf(h, dir, args)
+			r := runWtf(h, dir, args, envs[i]...)
 			if r.Panicked() || r.TimedOut {
 				t.Fatalf("wtf crashed: %+v", r)
 			}
